@@ -74,7 +74,7 @@ def write_prog(p):
 def ent(name, op, in_types, values, spec, nin, alt=(), nout=1):
     path = write_prog(program(op, in_types, values, nout))
     alts = [{"prog": write_prog(program(op, in_types, a, nout)), "nin": nin} for a in alt]
-    return dict(op=name, spec=spec, ins=[], params={"prog": path, "nin": nin}, alt_params=alts, k=None,
+    return dict(op=name, spec=spec, ins=[], params={"prog": path, "nin": nin}, alt_params=alts, k=None, complete=True,
                 functions=[f"zkir::{name}", "zkir::parser::incircuit", "zkir::parser::offcircuit"])
 
 
